@@ -18,7 +18,7 @@ from hv import Case
 from props import c16
 
 SPEC = {
-    "lean_modules": ["Honeycomb.Props.C17", "Honeycomb.Props.C17Surf"],
+    "lean_modules": ["Honeycomb.Props.C17", "Honeycomb.Props.C17Surf", "Honeycomb.Props.C16Grid"],
     "gen": ["anchors"],
     "required_theorems": [
         "C17_classify_frame", "C17_classify_WF", "C17_classify_ok_all_anchored",
@@ -29,6 +29,7 @@ SPEC = {
         "C17_surface_connected_same", "C17_same_surface_linked",
         "C17_vertex_merge_comm", "C17_vertex_merge_idem", "C17_vertex_merge_assoc", "C17_vertex_merge_lower_dim",
         "C17_vertex_merge_fails_iff", "C17_edge_merge_fails_iff", "C17_face_merge_fails_iff",
+        "C16_shift_loop_terminates", "C16_shift_loop_exit", "C17_no_vertex_on_grid_line",
     ],
     "trusted_base": [
         "Lean 4.33 kernel; axioms propext, Classical.choice, Quot.sound only",
@@ -36,14 +37,18 @@ SPEC = {
         "Honeycomb/Gen/Anchors.lean; regenerated on every run, fails on unrecognised shapes)",
         "hand-written model Honeycomb/Model/Capture.lean (classify_capture, mark_curve) tied to /repo by the hcmodel/hcimpl "
         "correspondence on hand-made anchored maps",
+        "hand-written model `overlappingGrid` (Model/Grisubal.lean: compute_overlapping_grid with its origin-shift loop and "
+        "detect_overlaps, over exact rationals) tied to /repo through the public API: `ogridg capture` = capture_geometry with "
+        "Clip::None, then the bounding box of the returned map, compared as identical text with the model and with an independent "
+        "Python evaluation (c16.shifted_grid) on polygons built to make the loop run 1..5 times",
         "Rust harness /verif/harness/hcimpl/src/gris.rs and tools/grisgeo.py + tools/props/c17.py (the oracle)",
         "vtkio's legacy reader (the geometry reaches the kernel through a file)",
     ],
     "assumptions": [
         "the main streams use C16's generator filter (general position) although C17's statement has no such clause; the stream "
-        "`edges through grid corners` drops `no edge through a grid corner` (in scope, full oracle); vertices on grid lines are not "
-        "generated: capture_geometry shifts its origin until no vertex lies on a grid line (keep_all_poi), which reduces them to other "
-        "grids; clip modes left/right (the quantifier's `clip modes that keep a "
+        "`edges through grid corners` drops `no edge through a grid corner` (in scope, full oracle); the stream `origin-shift loop` "
+        "puts vertices on grid lines of the first grids: capture_geometry shifts its origin until no vertex lies on a grid line "
+        "(C17_no_vertex_on_grid_line), in scope, full oracle; clip modes left/right (the quantifier's `clip modes that keep a "
         "bounded region`); Clip::None is run with the reduced oracle (every cell anchored, points of interest are nodes)",
         "maps of the correspondence stream are well-formed 2-maps (grids, grids with holes, loaded polygon soups)",
         "the surface theorems of Props/C17Surf.lean assume a map without edge and face anchors before the call (what "
@@ -54,7 +59,11 @@ SPEC = {
     "rule": "quick: ~70 geometries (same families as C16) x clip {left, right, none} x points of interest {all, some, none}; "
             "+ loops inside one cell; + 25 polygons with an edge through a grid corner (exact family) x up to 3 segment orders x 3 "
             "clips, full oracle (the former finding D17b = D16c, fixed by /repo 2e893a8: every clause must hold, also when the corner "
-            "edge comes first); + classify correspondence on hand-made anchored maps. thorough: x8.",
+            "edge comes first); + origin-shift loop: 40 simple polygons (lattice cell/16) with 1..4 vertices moved to (k + 1/2), "
+            "(k + 3/4), (k + 7/8), (k + 15/16) cells from the bounding-box minimum on one or both axes, so that compute_overlapping_grid "
+            "shifts its origin 1..5 times: `ogridg` tie + capture x 3 clips + classify with the full oracle (the oracle's grid is the "
+            "independently evaluated shifted grid; catches seeded C17-6); + classify correspondence on hand-made anchored maps. "
+            "thorough: x8.",
     "not_proved": [
         "C17_classify_asserts_never_fire: that the three debug_assert!s of classify_capture cannot fail on capture outputs "
         "(C17_classify_ok_all_anchored is the statement WITH the assertions, as in the debug build the harness runs). It is "
@@ -423,6 +432,12 @@ def run(tier, seed):
     parts.append(("edges through grid corners (exact family, several segment orders; in scope: C17 has no general-position clause; "
                   "panicked before /repo 2e893a8, finding D17b, fixed)",
                   gg.impl_campaign(c16.corner_cases(rng, 25 * mult, cmd="capture", oracle_name="c17", obs=("wf", "snap", "classify", "snap")), oracle)))
+    shg = c16.shift_geometries(rng, 40 * mult, True)
+    parts.append(("origin-shift loop of compute_overlapping_grid (vertices (k+1/2), (k+3/4), (k+7/8), (k+15/16) cells from the bounding-box "
+                  "minimum: 1..5 shifts): grid of the captured map vs model `overlappingGrid` vs independent evaluation",
+                  c16.shift_grid_tie(shg, "capture")))
+    parts.append(("origin-shift loop: capture + classify on the shifted polygons (in scope, full oracle)",
+                  gg.impl_campaign(c16.shift_cases(shg, cmd="capture", oracle_name="c17", obs=("wf", "snap", "classify", "snap")), oracle)))
     parts.append(("classify: hand-made anchored grids, model vs implementation", hv.campaign(grid_cases(rng, 150 * mult), None)))
     parts.append(("classify: all well-formed 2-maps with <= 3 darts (+ sampled 4-dart maps), model vs implementation",
                   hv.campaign(small_map_cases(rng, 4, 600 * mult), None)))
